@@ -1,7 +1,7 @@
 (* C07 driver: runs Model/Huffman.v (extracted) on the harness' cases.
    Tables are kept by id: "B" is Gen/HuffTable.teeworlds_table, a `freq` case defines a new one
    through the model's from_frequencies; every table so built is also put through the verified
-   checker wf_table (certified checking: the theorems of Props/C07.v apply to each of them). *)
+   checkers wf_table and tree_table (certified checking: the theorems of Props/C07.v apply to each of them). *)
 open Tw_io
 open Res
 open Huffman
@@ -29,7 +29,7 @@ let run = function
     (match from_frequencies f with
      | Ok t ->
        Hashtbl.replace tables tid t;
-       (if wf_table t then "ok " else "ok-but-not-wf ") ^ String.concat "," (List.map word (repr_of t))
+       (if wf_table t && HuffmanRef.tree_table t then "ok " else "ok-but-not-wf ") ^ String.concat "," (List.map word (repr_of t))
      | Err _ -> "err" | Panic _ -> "panic" | OutOfFuel -> "hang")
   | ["all"; tid; h] ->
     let t = tab tid and x = unhex h in
@@ -46,6 +46,14 @@ let run = function
     let y = unhex h and cap = nat_of_int (int_of_string cap) in
     dec_txt (decompress (dec_fuel y cap) (tab tid) y cap)
   | ["dvec"; tid; h] -> dec_txt (decompress_into_vec (tab tid) (unhex h))
+  (* the Gallina model of the C++ reference against the real C++ *)
+  | ["rdec"; tid; cap; h] ->
+    let c = int_of_string cap in
+    (match HuffmanRef.ref_decompress (nat_of_int (c + 2)) (tab tid) (unhex h) (nat_of_int c) with
+     | Ok bs -> "ok " ^ hex bs | Err _ -> "fail" | Panic _ -> "model-ub" | OutOfFuel -> "model-fuel")
+  | ["rcomp"; tid; cap; h] ->
+    (match HuffmanRef.ref_compress (tab tid) (unhex h) (nat_of_int (int_of_string cap)) with
+     | Ok bs -> "ok " ^ hex bs | Err _ -> "fail" | Panic _ -> "model-ub" | OutOfFuel -> "model-fuel")
   | _ -> "model-unknown-case"
 
 let () = main_loop run
